@@ -1,9 +1,285 @@
 import Reduino.Lemmas.Field
+import Reduino.Lemmas.C19
 import Reduino.Fw.Actuators
 import Reduino.Host.Led
 import Reduino.Host.RGBLed
 import Reduino.Host.Servo
 import Reduino.Host.DCMotor
+import Mathlib.Tactic.NormNum
+import Mathlib.Tactic.Positivity
 /- helper lemmas for Props/C04.lean -/
+set_option linter.unusedSectionVars false
 namespace Reduino.Lemmas.C04
+open Reduino Reduino.Fw Reduino.Lemmas.C19
+
+variable {K : Type} [Field K] [LinearOrder K] [IsStrictOrderedRing K] [FloorRing K]
+
+/-! ## numbers -/
+
+@[simp] theorem fzero_eq : (fzero : K) = 0 := by simp [fzero]
+@[simp] theorem lit_half : (lit 1 2 : K) = 1 / 2 := by simp [lit]
+@[simp] theorem fone_eq : (FMotor.one : K) = 1 := by simp [FMotor.one]
+
+theorem trunc_nonneg_eq {x : K} (h : 0 ≤ x) : (Num.trunc x : Int) = ⌊x⌋ := by
+  rw [trunc_eq, if_pos h]
+
+theorem floor_half : ⌊(1 / 2 : K)⌋ = 0 := by
+  rw [Int.floor_eq_iff]; constructor <;> norm_num
+
+theorem clamp255_bounds (n : Int) : 0 ≤ clamp255 n ∧ clamp255 n ≤ 255 := by
+  unfold clamp255; split_ifs <;> omega
+
+theorem clamp255_id {n : Int} (h0 : 0 ≤ n) (h1 : n ≤ 255) : clamp255 n = n := by
+  unfold clamp255; split_ifs <;> omega
+
+theorem hclamp_eq (n : Int) : Host.Led.clamp255 n = clamp255 n := by
+  unfold Host.Led.clamp255 clamp255; split_ifs <;> omega
+
+/-! ## event projections -/
+
+def dutiesL (l : List Ev) : List Int := l.filterMap fun | .aWrite _ d => some d | _ => none
+def delaysL (l : List Ev) : List Int := l.filterMap fun | .delay ms => some ms | _ => none
+
+@[simp] theorem dutiesL_nil : dutiesL [] = [] := rfl
+@[simp] theorem delaysL_nil : delaysL [] = [] := rfl
+@[simp] theorem dutiesL_append (a b : List Ev) : dutiesL (a ++ b) = dutiesL a ++ dutiesL b := by
+  simp [dutiesL]
+@[simp] theorem delaysL_append (a b : List Ev) : delaysL (a ++ b) = delaysL a ++ delaysL b := by
+  simp [delaysL]
+@[simp] theorem dutiesL_cons_aWrite (p d : Int) (l : List Ev) : dutiesL (.aWrite p d :: l) = d :: dutiesL l := by
+  simp [dutiesL]
+@[simp] theorem dutiesL_cons_dWrite (p d : Int) (l : List Ev) : dutiesL (.dWrite p d :: l) = dutiesL l := by
+  simp [dutiesL]
+@[simp] theorem dutiesL_cons_delay (d : Int) (l : List Ev) : dutiesL (.delay d :: l) = dutiesL l := by
+  simp [dutiesL]
+@[simp] theorem delaysL_cons_aWrite (p d : Int) (l : List Ev) : delaysL (.aWrite p d :: l) = delaysL l := by
+  simp [delaysL]
+@[simp] theorem delaysL_cons_dWrite (p d : Int) (l : List Ev) : delaysL (.dWrite p d :: l) = delaysL l := by
+  simp [delaysL]
+@[simp] theorem delaysL_cons_delay (d : Int) (l : List Ev) : delaysL (.delay d :: l) = d :: delaysL l := by
+  simp [delaysL]
+
+/-! ## DCMotor -/
+
+theorem clampSpeed_eq (x : K) : FMotor.clampSpeed x = if 1 < x then 1 else if x < -1 then -1 else x := by
+  simp only [FMotor.clampSpeed, fone_eq]
+  split_ifs <;> first | rfl | (exfalso; linarith)
+
+theorem clampSpeed_host (x : K) : FMotor.clampSpeed x = Host.Motor.clamp (.flt x) := by
+  rw [clampSpeed_eq, clamp_eq, C19.toF_flt]
+
+theorem clampSpeed_bounds (x : K) : (-1 : K) ≤ FMotor.clampSpeed x ∧ FMotor.clampSpeed x ≤ 1 := by
+  rw [clampSpeed_eq]; split_ifs <;> constructor <;> linarith
+
+theorem clampSpeed_id {x : K} (h0 : -1 ≤ x) (h1 : x ≤ 1) : FMotor.clampSpeed x = x := by
+  rw [clampSpeed_eq, if_neg (not_lt.mpr h1), if_neg (not_lt.mpr h0)]
+
+def effOf (inv : Bool) (sp : K) : K := if inv then -sp else sp
+
+theorem abs_effOf (inv : Bool) (sp : K) : |effOf inv sp| = |sp| := by
+  unfold effOf; split <;> simp
+
+/-- the duty the firmware puts on the enable pin for an applied speed -/
+def dutyL (applied : K) : Int := clamp255 (Num.trunc (|applied| * 255 + 1 / 2))
+
+theorem dutyL_bounds (x : K) : 0 ≤ dutyL x ∧ dutyL x ≤ 255 := clamp255_bounds _
+
+def NotTinyL (x : K) : Prop := x = 0 ∨ 1 / 510 ≤ |x|
+
+theorem dutyL_eq_zero_iff {x : K} (h : NotTinyL x) : dutyL x = 0 ↔ x = 0 := by
+  constructor
+  · intro hd
+    rcases h with h | h
+    · exact h
+    · exfalso
+      have h1 : (1 : K) ≤ |x| * 255 + 1 / 2 := by linarith
+      have h2 : (1 : Int) ≤ ⌊|x| * 255 + 1 / 2⌋ := Int.le_floor.mpr (by exact_mod_cast h1)
+      unfold dutyL at hd
+      rw [trunc_nonneg_eq (by linarith)] at hd
+      unfold clamp255 at hd
+      split_ifs at hd <;> omega
+  · intro hx
+    subst hx
+    unfold dutyL
+    rw [abs_zero, zero_mul, zero_add, trunc_nonneg_eq (by norm_num), floor_half]
+    rfl
+
+def driveSt (m : FMotor K) (value : K) (store : Bool) : FMotor K :=
+  { pins := m.pins, speed := if store then FMotor.clampSpeed value else m.speed, inverted := m.inverted,
+    mode := if dutyL (effOf m.inverted (FMotor.clampSpeed value)) = 0 then .coast else .drive }
+
+def driveEvs (pins : Int × Int × Int) (eff : K) : List Ev :=
+  (if dutyL eff = 0 then [.dWrite pins.1 0, .dWrite pins.2.1 0]
+   else if 0 < eff then [.dWrite pins.1 1, .dWrite pins.2.1 0]
+   else [.dWrite pins.1 0, .dWrite pins.2.1 1]) ++ [.aWrite pins.2.2 (dutyL eff)]
+
+theorem ab_eq {eff : K} (h : |eff| ≤ 1) :
+    (if (1 : K) < (if 0 ≤ eff then eff else -eff) then 1 else (if 0 ≤ eff then eff else -eff)) = |eff| := by
+  have : (if 0 ≤ eff then eff else -eff) = |eff| := by
+    split
+    · exact (abs_of_nonneg ‹_›).symm
+    · exact (abs_of_neg (not_le.mp ‹_›)).symm
+  rw [this, if_neg (not_lt.mpr h)]
+
+theorem drive_eq (m : FMotor K) (value : K) (store : Bool) :
+    FMotor.drive m value store =
+      (driveSt m value store, driveEvs m.pins (effOf m.inverted (FMotor.clampSpeed value))) := by
+  have hb : |effOf m.inverted (FMotor.clampSpeed value)| ≤ 1 := by
+    rw [abs_effOf, abs_le]; exact clampSpeed_bounds value
+  have hab := ab_eq hb
+  unfold effOf at hab hb
+  simp only [FMotor.drive, fzero_eq, fone_eq, lit_half, ofInt_eq, Int.cast_ofNat, driveSt, driveEvs, effOf, dutyL]
+  rw [hab]
+  cases store <;> rfl
+
+@[simp] theorem driveSt_pins (m : FMotor K) (v : K) (b : Bool) : (driveSt m v b).pins = m.pins := rfl
+@[simp] theorem driveSt_inverted (m : FMotor K) (v : K) (b : Bool) : (driveSt m v b).inverted = m.inverted := rfl
+
+theorem driveSt_driveSt (m : FMotor K) (v w : K) (b : Bool) :
+    driveSt (driveSt m v b) w true = driveSt m w true := rfl
+
+theorem notTiny_effOf {inv : Bool} {x : K} (h : NotTinyL x) : NotTinyL (effOf inv x) := by
+  unfold NotTinyL at h ⊢
+  rw [abs_effOf]
+  rcases h with h | h
+  · left; subst h; unfold effOf; split <;> simp
+  · right; exact h
+
+theorem effOf_bounds {inv : Bool} {x : K} (h0 : -1 ≤ x) (h1 : x ≤ 1) : |effOf inv x| ≤ 1 := by
+  rw [abs_effOf, abs_le]; exact ⟨h0, h1⟩
+
+theorem ite_duty {β : Type} {x : K} (h : NotTinyL x) (a b : β) :
+    (if dutyL x = 0 then a else b) = if x = 0 then a else b := by
+  simp only [dutyL_eq_zero_iff h]
+
+theorem clampSpeed_toF (v : Val K) : FMotor.clampSpeed v.toF = Host.Motor.clamp v := by
+  rw [clampSpeed_eq, clamp_eq]
+
+theorem dutiesL_driveEvs (pins : Int × Int × Int) (eff : K) : dutiesL (driveEvs pins eff) = [dutyL eff] := by
+  unfold driveEvs; split_ifs <;> simp
+
+theorem delaysL_driveEvs (pins : Int × Int × Int) (eff : K) : delaysL (driveEvs pins eff) = [] := by
+  unfold driveEvs; split_ifs <;> simp
+
+/-! ### ramp -/
+
+def rampVal (start target : K) (i : Int) : K := start + (target - start) * ((i : K) / 20)
+def rampD (delay : K) : List Ev := if 0 < delay then [.delay (Num.trunc delay)] else []
+
+def rampEvs (pins : Int × Int × Int) (inv : Bool) (start target delay : K) : Nat → Int → List Ev
+  | 0, _ => []
+  | k + 1, i => driveEvs pins (effOf inv (FMotor.clampSpeed (rampVal start target i))) ++ rampD delay ++
+      rampEvs pins inv start target delay k (i + 1)
+
+def rampSt (start target : K) : Nat → Int → FMotor K → FMotor K
+  | 0, _, m => m
+  | k + 1, i, m => rampSt start target k (i + 1) (driveSt m (rampVal start target i) true)
+
+theorem rampLoop_eq (start target delay : K) (k : Nat) (i : Int) (m : FMotor K) (acc : List Ev) :
+    FMotor.rampLoop start target delay k i m acc =
+      (rampSt start target k i m, acc ++ rampEvs m.pins m.inverted start target delay k i) := by
+  induction k generalizing i m acc with
+  | zero => simp [FMotor.rampLoop, rampSt, rampEvs]
+  | succ k ih =>
+    have hv : start + (target - start) * ((Num.ofInt i : K) / Num.ofInt 20) = rampVal start target i := by
+      simp [rampVal]
+    have hd : (if (fzero : K) < delay then [Ev.delay (Num.trunc delay)] else []) = rampD delay := by
+      simp [rampD]
+    simp only [FMotor.rampLoop, hv, hd, drive_eq, ih, rampSt, rampEvs, driveSt_pins, driveSt_inverted,
+      List.append_assoc]
+
+theorem rampSt_eq (start target : K) (k : Nat) (i : Int) (m : FMotor K) :
+    rampSt start target k i m =
+      if k = 0 then m else driveSt m (rampVal start target (i + k - 1)) true := by
+  induction k generalizing i m with
+  | zero => rfl
+  | succ k ih =>
+    rw [rampSt, ih]
+    by_cases hk : k = 0
+    · subst hk; simp
+    · rw [if_neg hk, if_neg (Nat.succ_ne_zero k), driveSt_driveSt]
+      congr 2; push_cast; ring
+
+theorem rampVal_end (start target : K) : rampVal start target 20 = target := by
+  unfold rampVal; norm_num
+
+theorem dutiesL_rampEvs (pins : Int × Int × Int) (inv : Bool) (start target delay : K) (k : Nat) (i : Int) :
+    ∀ d ∈ dutiesL (rampEvs pins inv start target delay k i), 0 ≤ d ∧ d ≤ 255 := by
+  induction k generalizing i with
+  | zero => simp [rampEvs]
+  | succ k ih =>
+    intro d hd
+    simp only [rampEvs, dutiesL_append, dutiesL_driveEvs, List.mem_append, List.mem_singleton] at hd
+    rcases hd with (hd | hd) | hd
+    · subst hd; exact dutyL_bounds _
+    · unfold rampD at hd; split at hd <;> simp at hd
+    · exact ih _ d hd
+
+theorem delaysL_rampEvs (pins : Int × Int × Int) (inv : Bool) (start target delay : K) (k : Nat) (i : Int) :
+    delaysL (rampEvs pins inv start target delay k i) =
+      if 0 < delay then List.replicate k (Num.trunc delay) else [] := by
+  induction k generalizing i with
+  | zero => simp [rampEvs]
+  | succ k ih =>
+    simp only [rampEvs, delaysL_append, delaysL_driveEvs, ih, List.nil_append]
+    unfold rampD
+    split <;> simp [List.replicate_succ]
+
+/-! ### host side -/
+
+theorem host_apply_eq (s : Host.Motor K) (sp : K) :
+    Host.Motor.apply s sp =
+      { speed := s.speed, inverted := s.inverted,
+        mode := if effOf s.inverted sp = 0 then .coast else .drive, applied := effOf s.inverted sp } := by
+  simp only [Host.Motor.apply, zero_eq, effOf]
+  by_cases h : (if s.inverted = true then -sp else sp) = 0
+  · simp [h]
+  · rcases lt_or_gt_of_ne h with h' | h' <;> simp [h, h', not_lt.mpr h'.le]
+
+theorem host_setSpeed_eq (s : Host.Motor K) (v : Val K) :
+    Host.Motor.setSpeed s v =
+      { speed := Host.Motor.clamp v, inverted := s.inverted,
+        mode := if effOf s.inverted (Host.Motor.clamp v) = 0 then .coast else .drive,
+        applied := effOf s.inverted (Host.Motor.clamp v) } := by
+  unfold Host.Motor.setSpeed
+  simp only [host_apply_eq]
+
+theorem host_setSpeed_setSpeed (s : Host.Motor K) (v w : Val K) :
+    Host.Motor.setSpeed (Host.Motor.setSpeed s v) w = Host.Motor.setSpeed s w := by
+  simp only [host_setSpeed_eq]
+
+theorem rampGo_st (start stepv : K) (delay : Val K) (k : Nat) (s : Host.Motor K) (sl : List (Val K)) (tr : List K) :
+    (Host.Motor.rampGo start stepv delay k s sl tr).1 =
+      if k = 0 then s else Host.Motor.setSpeed s (.flt (start + stepv * 20)) := by
+  induction k generalizing s sl tr with
+  | zero => simp [Host.Motor.rampGo]
+  | succ k ih =>
+    rw [rampGo_succ, ih]
+    by_cases hk : k = 0
+    · subst hk; simp
+    · rw [if_neg hk, if_neg (Nat.succ_ne_zero k), host_setSpeed_setSpeed]
+
+theorem rampGo_trace_last (start stepv : K) (delay : Val K) (s : Host.Motor K) :
+    Host.Motor.clamp (.flt (start + stepv * 20)) ∈ (Host.Motor.rampGo start stepv delay 20 s [] []).2.2 := by
+  rw [(rampGo_spec start stepv delay 20 0 s [] [] rfl).2.1]
+  simp only [List.reverse_nil, List.nil_append, List.mem_map, List.mem_range]
+  exact ⟨19, by norm_num, by norm_num⟩
+
+/-! ## Servo -/
+
+theorem clampTo_eq (lo hi x : K) :
+    FServo.clampTo lo hi x = if hi < (if x < lo then lo else x) then hi else (if x < lo then lo else x) := rfl
+
+theorem clampTo_bounds {lo hi : K} (h : lo ≤ hi) (x : K) :
+    lo ≤ FServo.clampTo lo hi x ∧ FServo.clampTo lo hi x ≤ hi := by
+  rw [clampTo_eq]; split_ifs <;> constructor <;> linarith
+
+theorem clampTo_id {lo hi x : K} (h0 : lo ≤ x) (h1 : x ≤ hi) : FServo.clampTo lo hi x = x := by
+  rw [clampTo_eq, if_neg (not_lt.mpr h0), if_neg (not_lt.mpr h1)]
+
+theorem isZ_false {x : K} (h : x ≠ 0) : FServo.isZ x = false := by
+  unfold FServo.isZ
+  rw [fzero_eq]
+  rcases lt_or_gt_of_ne h with h' | h' <;> simp [h']
+
 end Reduino.Lemmas.C04
